@@ -39,18 +39,24 @@ var spareVals = []*lang.Val{
 
 func genAPI(t *rapid.T) *payload {
 	tp := genTemplateProgram(t, rapid.IntRange(0, 4).Draw(t, "apiErr") == 0)
-	p := &payload{Kind: "api", Family: "template", Source: tp.src.String(), Modules: tp.mods, Base: tplInputs(t)}
+	p := &payload{Kind: "api", Family: "template", Source: tp.src.String(), Modules: tp.mods}
+	if raceEnabled {
+		p.Free = rapid.IntRange(0, 1).Draw(t, "free") == 0
+	} else {
+		p.Free = rapid.IntRange(0, 7).Draw(t, "free") == 0
+	}
+	// Free schedules Set inputs while others run. So that the twin's
+	// sequential runs still tell exactly which runs fail and which touch a
+	// shared string (the known-finding guards), such a Set never changes the
+	// control flow: all values are well typed and in0 (the only input a
+	// condition looks at) is left alone.
+	p.Base = tplInputs(t, !p.Free)
 	ng := rapid.IntRange(2, 4).Draw(t, "goroutines")
 	for g := 0; g < 4; g++ {
 		p.Base[spareName(g)] = vInt(int64(g))
 	}
 	p.RunFirst = rapid.IntRange(0, 2).Draw(t, "runFirst") == 0
 	p.OnClone = rapid.Bool().Draw(t, "onClone")
-	if raceEnabled {
-		p.Free = rapid.IntRange(0, 1).Draw(t, "free") == 0
-	} else {
-		p.Free = rapid.IntRange(0, 7).Draw(t, "free") == 0
-	}
 	progVars := programVars(p.Source)
 	runs, maxRuns := 0, 6
 	if raceEnabled {
@@ -89,8 +95,8 @@ func genAPI(t *rapid.T) *payload {
 					op.Name = progVars[rapid.IntRange(0, len(progVars)-1).Draw(t, "progVar")]
 				}
 			case "setin":
-				in := tplInputs(t)
-				op.Name = []string{"in0", "in1", "in2", "in3"}[rapid.IntRange(0, 3).Draw(t, "whichIn")]
+				in := tplInputs(t, false)
+				op.Name = []string{"in1", "in2", "in3"}[rapid.IntRange(0, 2).Draw(t, "whichIn")]
 				op.Val = in[op.Name]
 			case "replace":
 				op.N = int64(100 + g)
